@@ -1,36 +1,190 @@
 import OntVerif.Model.InvokeFee
-/-! Helper lemmas for C05 (core Lean only). -/
+import OntVerif.Proofs.Token
+/-! Helper lemmas for C05 (core Lean only). The fee transfer is the token model of C06 (`Model/Token.lean`); its
+properties are derived here from C06's lemmas (`Proofs/Token.lean`), not from a second model. -/
 namespace OntVerif.Proofs.InvokeFee
 open OntVerif.Model.InvokeFee
+open OntVerif.Model.Token (Tok St Xfer Res Err R)
+open OntVerif.Proofs.Token (movedTok)
+
+/-- what `exec` of the token model does for a single ONG state -/
+theorem exec_fee (env : OntVerif.Model.Token.Env) (s : St) (x : Xfer) :
+    OntVerif.Model.Token.exec env s (.transfer .ong [x]) =
+      if x.value = 0 then (.ok, s)
+      else if env.ongSupply < x.value then (.err .overSupply, s)
+      else match OntVerif.Model.Token.transferPrim env env.caller s.ong x.frm x.to x.value with
+        | .fail r t => (.err r, { s with ong := t })
+        | .ok _ t => (.ok, { s with ong := t }) := by
+  simp only [OntVerif.Model.Token.exec, OntVerif.Model.Token.transferLoop, OntVerif.Model.Token.xferStep,
+    OntVerif.Model.Token.Env.supply, OntVerif.Model.Token.St.tok, OntVerif.Model.Token.St.setTok]
+  by_cases h0 : x.value = 0
+  · simp [h0]
+  · by_cases h1 : env.ongSupply < x.value
+    · simp [h0, h1]
+    · simp only [h0, h1, if_false]
+      cases h : OntVerif.Model.Token.transferPrim env env.caller s.ong x.frm x.to x.value with
+      | fail r t => rfl
+      | ok p t => obtain ⟨a, b⟩ := p; rfl
+
+/-- the fee transfer in closed form, read off the token model -/
+theorem feeTransferAmt_eq (S : Nat) (view : Addr → Nat) (p g : Addr) (w : Bool) (amt : Nat) :
+    feeTransferAmt S view p g w amt =
+      if amt = 0 then .ok view
+      else if S < amt then .rejected
+      else match OntVerif.Model.Token.transferPrim (feeEnv S p w) none ⟨view, fun _ _ => 0⟩ p g amt with
+        | .fail .panic _ => .panic
+        | .fail _ _ => .rejected
+        | .ok _ t => .ok t.bal := by
+  unfold feeTransferAmt
+  rw [exec_fee]
+  by_cases h0 : amt = 0
+  · simp [h0, feeResOf, tokSt]
+  · by_cases h1 : S < amt
+    · simp [h0, h1, feeResOf, feeEnv]
+    · have h1' : ¬ (feeEnv S p w).ongSupply < amt := h1
+      simp only [h0, h1, h1', if_false]
+      show feeResOf (match OntVerif.Model.Token.transferPrim (feeEnv S p w) none ⟨view, fun _ _ => 0⟩ p g amt with
+          | .fail r t => (Res.err r, ({ tokSt view with ong := t } : St))
+          | .ok _ t => (Res.ok, { tokSt view with ong := t })) = _
+      cases OntVerif.Model.Token.transferPrim (feeEnv S p w) none ⟨view, fun _ _ => 0⟩ p g amt with
+      | fail r t => cases r <;> rfl
+      | ok q t => rfl
+
+/-- what a completed fee transfer did: authorised by the payer's signature (or nothing moved), covered by the payer's
+balance, at most the total supply, debit-then-credit (`movedTok` of C06) -/
+theorem feeTransferAmt_ok (S : Nat) (view : Addr → Nat) (p g : Addr) (w : Bool) (amt : Nat) (b : Addr → Nat)
+    (h : feeTransferAmt S view p g w amt = .ok b) :
+    (amt = 0 ∧ b = view) ∨
+    (w = true ∧ amt ≤ view p ∧ amt ≤ S ∧ b = (movedTok ⟨view, fun _ _ => 0⟩ p g amt).bal) := by
+  rw [feeTransferAmt_eq] at h
+  by_cases h0 : amt = 0
+  · left; rw [if_pos h0] at h; injection h with h; exact ⟨h0, h.symm⟩
+  · right
+    rw [if_neg h0] at h
+    by_cases h1 : S < amt
+    · rw [if_pos h1] at h; cases h
+    · rw [if_neg h1] at h
+      cases ht : OntVerif.Model.Token.transferPrim (feeEnv S p w) none ⟨view, fun _ _ => 0⟩ p g amt with
+      | fail r t => rw [ht] at h; cases r <;> cases h
+      | ok q t =>
+        obtain ⟨oF, oT⟩ := q
+        rw [ht] at h
+        injection h with h
+        obtain ⟨hw, hle, _, ht'⟩ := OntVerif.Proofs.Token.transferPrim_ok _ _ _ _ _ _ _ _ _ ht
+        refine ⟨?_, hle, Nat.le_of_not_lt h1, by rw [← h, ht']⟩
+        cases w with
+        | true => rfl
+        | false => simp [OntVerif.Model.Token.witness, feeEnv] at hw
+
+theorem feeTransferAmt_spec (S : Nat) (view : Addr → Nat) (p g : Addr) (w : Bool) (amt : Nat) (b : Addr → Nat)
+    (h : feeTransferAmt S view p g w amt = .ok b) :
+    (∀ a, a ≠ p → a ≠ g → b a = view a) ∧ amt ≤ view p ∧
+    (p ≠ g → b p + amt = view p ∧ b g = view g + amt) ∧ (p = g → b p = view p) := by
+  rcases feeTransferAmt_ok S view p g w amt b h with ⟨h0, hb⟩ | ⟨_, hle, _, hb⟩
+  · subst hb; subst h0; simp
+  · subst hb
+    refine ⟨?_, hle, ?_, ?_⟩
+    · intro a ha hg; simp [movedTok, OntVerif.Model.Token.Tok.setBal, ha, hg]
+    · intro hpg
+      have hgp : g ≠ p := fun e => hpg e.symm
+      simp [movedTok, OntVerif.Model.Token.Tok.setBal, hpg, hgp]
+      omega
+    · intro hpg; subst hpg
+      simp [movedTok, OntVerif.Model.Token.Tok.setBal]
+      omega
+
+/-- no Go panic inside the token contract when whole balances up to `2·S` are storable and the two balances involved
+do not exceed `S` -/
+theorem feeTransferAmt_no_panic (S : Nat) (view : Addr → Nat) (p g : Addr) (w : Bool) (amt : Nat)
+    (hS : ∀ b, b ≤ 2 * S → OntVerif.Model.Token.storable b = true)
+    (hp : view p ≤ S) (hg : view g ≤ S) : feeTransferAmt S view p g w amt ≠ .panic := by
+  intro h
+  rw [feeTransferAmt_eq] at h
+  by_cases h0 : amt = 0
+  · rw [if_pos h0] at h; cases h
+  · rw [if_neg h0] at h
+    by_cases h1 : S < amt
+    · rw [if_pos h1] at h; cases h
+    · rw [if_neg h1] at h
+      have hv : amt ≤ S := Nat.le_of_not_lt h1
+      cases ht : OntVerif.Model.Token.transferPrim (feeEnv S p w) none ⟨view, fun _ _ => 0⟩ p g amt with
+      | ok q t => rw [ht] at h; cases h
+      | fail r t =>
+        rw [ht] at h
+        have hr : r = .panic := by cases r <;> first | rfl | cases h
+        subst hr
+        unfold OntVerif.Model.Token.transferPrim at ht
+        split at ht
+        · cases ht
+        · cases h1' : OntVerif.Model.Token.reduceFrom (⟨view, fun _ _ => 0⟩ : Tok) p amt with
+          | fail r1 t1 =>
+            rw [h1'] at ht
+            simp only at ht
+            injection ht with hr1 _
+            subst hr1
+            unfold OntVerif.Model.Token.reduceFrom at h1'
+            simp only at h1'
+            split at h1'
+            · cases h1'
+            · split at h1'
+              · cases h1'
+              · split at h1'
+                · cases h1'
+                · next hs => exact hs (hS _ (by omega))
+          | ok old t1 =>
+            rw [h1'] at ht
+            simp only at ht
+            obtain ⟨_, hle, ht1⟩ := OntVerif.Proofs.Token.reduceFrom_ok _ _ _ _ _ h1'
+            cases h2' : OntVerif.Model.Token.increaseTo t1 g amt with
+            | ok o2 t2 => rw [h2'] at ht; cases ht
+            | fail r2 t2 =>
+              unfold OntVerif.Model.Token.increaseTo at h2'
+              simp only at h2'
+              split at h2'
+              · cases h2'
+              · next hs =>
+                have hb : t1.bal g ≤ S := by
+                  rw [ht1, OntVerif.Proofs.Token.setBal_bal]
+                  split
+                  · show view p - amt ≤ S; omega
+                  · exact hg
+                exact hs (hS _ (by omega))
+
+/-! ### the fee transfer with a version-1 amount -/
+
+theorem feeTransfer_spec (view : Addr → Nat) (p g : Addr) (w : Bool) (v : UInt64) (b : Addr → Nat)
+    (h : feeTransfer view p g w v = .ok b) :
+    (∀ a, a ≠ p → a ≠ g → b a = view a) ∧ unit * v.toNat ≤ view p ∧
+    (p ≠ g → b p + unit * v.toNat = view p ∧ b g = view g + unit * v.toNat) ∧ (p = g → b p = view p) :=
+  feeTransferAmt_spec _ _ _ _ _ _ _ h
+
+/-- a fee that moved needed the payer's signature -/
+theorem feeTransfer_auth (view : Addr → Nat) (p g : Addr) (w : Bool) (v : UInt64) (b : Addr → Nat)
+    (h : feeTransfer view p g w v = .ok b) : unit * v.toNat = 0 ∨ w = true := by
+  rcases feeTransferAmt_ok _ _ _ _ _ _ _ h with ⟨h0, _⟩ | ⟨hw, _⟩
+  · exact Or.inl h0
+  · exact Or.inr hw
+
+theorem storable_of_le (b : Nat) (h : b ≤ 2 * totalSupplyV2) : OntVerif.Model.Token.storable b = true := by
+  have h2 : 2 * totalSupplyV2 < OntVerif.Model.Token.two64 * OntVerif.Model.Token.SF := by decide
+  have h1 : b / OntVerif.Model.Token.SF < OntVerif.Model.Token.two64 :=
+    (Nat.div_lt_iff_lt_mul (by decide)).mpr (by omega)
+  simp [OntVerif.Model.Token.storable, h1]
+
+theorem feeTransfer_no_panic (view : Addr → Nat) (p g : Addr) (w : Bool) (v : UInt64)
+    (hp : view p ≤ totalSupplyV2) (hg : view g ≤ totalSupplyV2) : feeTransfer view p g w v ≠ .panic :=
+  feeTransferAmt_no_panic _ _ _ _ _ _ storable_of_le hp hg
+
+/-! ### failed transactions -/
 
 /-- what a failed transaction may do to the overlay, given the gas it reports -/
 structure FeeOnly {σ} (gov payer : Addr) (ov ov' : Overlay σ) (consumed : UInt64) : Prop where
   rest : ov'.rest = ov.rest
   frame : ∀ a, a ≠ payer → a ≠ gov → ov'.bal a = ov.bal a
-  le : consumed.toNat * unit ≤ ov.bal payer
-  payer_ : payer ≠ gov → ov'.bal payer + consumed.toNat * unit = ov.bal payer
-  gov_ : payer ≠ gov → ov'.bal gov = ov.bal gov + consumed.toNat * unit
+  le : unit * consumed.toNat ≤ ov.bal payer
+  payer_ : payer ≠ gov → ov'.bal payer + unit * consumed.toNat = ov.bal payer
+  gov_ : payer ≠ gov → ov'.bal gov = ov.bal gov + unit * consumed.toNat
   self : payer = gov → ov'.bal payer = ov.bal payer
-
-theorem feeTransfer_spec (view : Addr → Nat) (p g : Addr) (w : Bool) (v : UInt64) (b : Addr → Nat)
-    (h : feeTransfer view p g w v = some b) :
-    (∀ a, a ≠ p → a ≠ g → b a = view a) ∧ v.toNat * unit ≤ view p ∧
-    (p ≠ g → b p + v.toNat * unit = view p ∧ b g = view g + v.toNat * unit) ∧ (p = g → b p = view p) := by
-  unfold feeTransfer at h
-  split at h
-  · next h0 => cases h; subst h0; simp
-  · split at h; · cases h
-    split at h; · cases h
-    split at h; · cases h
-    next hb =>
-    cases h
-    have hle : v.toNat * unit ≤ view p := Nat.le_of_not_lt hb
-    refine ⟨?_, hle, ?_, ?_⟩
-    · intro a ha hg; simp [upd, ha, hg]
-    · intro hpg
-      have hgp : g ≠ p := fun e => hpg e.symm
-      simp [upd, hpg, hgp]; omega
-    · intro hpg; subst hpg; simp [upd]; omega
 
 def Good {σ} (env : Env) (ov : Overlay σ) (tx : Tx) : Res σ → Prop
   | .done ov' n => n.state = .fail → FeeOnly env.gov tx.payer ov ov' n.gasConsumed
@@ -43,39 +197,33 @@ theorem good_costInvalid {σ} (env : Env) (ov : Overlay σ) (tx : Tx) (g : UInt6
   unfold costInvalid
   split
   · exact good_same env ov tx 0
+  · trivial
   · next b hb =>
     obtain ⟨h1, h2, h3, h4⟩ := feeTransfer_spec _ _ _ _ _ _ hb
     intro _
     exact ⟨rfl, h1, h2, fun h => (h3 h).1, fun h => (h3 h).2, h4⟩
 
-theorem good_tunedInvalid {σ} (v : Variant) (env : Env) (ov : Overlay σ) (tx : Tx) (c b : UInt64) :
-    Good env ov tx (tunedInvalid v env ov tx c b) := by
-  unfold tunedInvalid
-  split
-  · trivial
-  · exact good_costInvalid _ _ _ _
-
-theorem good_chargeAndCommit {σ} (v : Variant) (env : Env) (ov : Overlay σ) (tx : Tx) (out : ExecOutcome σ) (c b : UInt64) :
-    Good env ov tx (chargeAndCommit v env ov tx out c b) := by
+theorem good_chargeAndCommit {σ} (env : Env) (ov : Overlay σ) (tx : Tx) (out : ExecOutcome σ) (c b : UInt64) :
+    Good env ov tx (chargeAndCommit env ov tx out c b) := by
   unfold chargeAndCommit
+  dsimp only
   split
+  · exact good_same _ _ _ _
   · trivial
-  · split
-    · exact good_same _ _ _ _
-    · intro h; cases h
+  · intro h; cases h
 
-theorem good_afterExec {σ} (v : Variant) (env : Env) (ov : Overlay σ) (tx : Tx) (out : ExecOutcome σ) (ob av : UInt64) :
-    Good env ov tx (afterExec v env ov tx out ob av) := by
+theorem good_afterExec {σ} (env : Env) (ov : Overlay σ) (tx : Tx) (out : ExecOutcome σ) (ob av : UInt64) :
+    Good env ov tx (afterExec env ov tx out ob av) := by
   unfold afterExec
   split; · trivial
   split
   · split
-    · exact good_tunedInvalid _ _ _ _ _ _
+    · exact good_costInvalid _ _ _ _
     · exact good_same _ _ _ _
   · split
     · split
-      · exact good_tunedInvalid _ _ _ _ _ _
-      · exact good_chargeAndCommit _ _ _ _ _ _ _
+      · exact good_costInvalid _ _ _ _
+      · exact good_chargeAndCommit _ _ _ _ _ _
     · intro h; cases h
 
 theorem good_invoke {σ} (v : Variant) (env : Env) (ov : Overlay σ) (tx : Tx) (out : ExecOutcome σ) :
@@ -87,92 +235,101 @@ theorem good_invoke {σ} (v : Variant) (env : Env) (ov : Overlay σ) (tx : Tx) (
     split; · exact good_costInvalid _ _ _ _
     split; · exact good_costInvalid _ _ _ _
     split; · exact good_costInvalid _ _ _ _
-    exact good_afterExec _ _ _ _ _ _ _
-  · exact good_afterExec _ _ _ _ _ _ _
-theorem tune_none (v : Variant) (t : Bool) (g r c : UInt64) (h : tune v t g r c = none) :
-    v = .asShipped ∧ t = true ∧ r = 0 := by
-  unfold tune at h
-  split at h
-  · next ht =>
-    split at h
-    · next hr => cases v <;> simp_all
-    · dsimp only at h
-      split at h
-      · cases h
-      · split at h <;> cases h
-  · cases h
+    split; · exact good_costInvalid _ _ _ _
+    exact good_afterExec _ _ _ _ _ _
+  · exact good_afterExec _ _ _ _ _ _
+
+/-! ### totality -/
 
 /-- a result is a panic only under condition `c` -/
 def PanicOnly {σ} (c : Prop) : Res σ → Prop
   | .panic => c
   | _ => True
 
-theorem po_costInvalid {σ} (c : Prop) (env : Env) (ov : Overlay σ) (tx : Tx) (g : UInt64) : PanicOnly c (costInvalid env ov tx g) := by
-  unfold costInvalid; split <;> trivial
-
-abbrev PanicCond (v : Variant) (env : Env) (tx : Tx) : Prop :=
-  v = .asShipped ∧ env.tuned = true ∧ tx.gasPrice * minTxGas = 0 ∧ isCharge env tx = true
-
-theorem po_tunedInvalid {σ} (v : Variant) (env : Env) (ov : Overlay σ) (tx : Tx) (cg b : UInt64) (hc : isCharge env tx = true) :
-    PanicOnly (PanicCond v env tx) (tunedInvalid v env ov tx cg b) := by
-  unfold tunedInvalid
+theorem po_costInvalid {σ} (env : Env) (ov : Overlay σ) (tx : Tx) (g : UInt64) :
+    PanicOnly (¬ (ov.bal tx.payer ≤ totalSupplyV2 ∧ ov.bal env.gov ≤ totalSupplyV2)) (costInvalid env ov tx g) := by
+  unfold costInvalid
   split
-  · next h => obtain ⟨a, b, c⟩ := tune_none _ _ _ _ _ h; exact ⟨a, b, c, hc⟩
-  · exact po_costInvalid _ _ _ _ _
+  · trivial
+  · next h => intro hb; exact feeTransfer_no_panic _ _ _ _ _ hb.1 hb.2 h
+  · trivial
 
-theorem po_chargeAndCommit {σ} (v : Variant) (env : Env) (ov : Overlay σ) (tx : Tx) (out : ExecOutcome σ) (cg b : UInt64) (hc : isCharge env tx = true) :
-    PanicOnly (PanicCond v env tx) (chargeAndCommit v env ov tx out cg b) := by
+theorem po_chargeAndCommit {σ} (env : Env) (ov : Overlay σ) (tx : Tx) (out : ExecOutcome σ) (c b : UInt64) :
+    PanicOnly (¬ (out.st.bal tx.payer ≤ totalSupplyV2 ∧ out.st.bal env.gov ≤ totalSupplyV2)) (chargeAndCommit env ov tx out c b) := by
   unfold chargeAndCommit
+  dsimp only
   split
-  · next h => obtain ⟨a, b, c⟩ := tune_none _ _ _ _ _ h; exact ⟨a, b, c, hc⟩
-  · split <;> trivial
+  · trivial
+  · next h => intro hb; exact feeTransfer_no_panic _ _ _ _ _ hb.1 hb.2 h
+  · trivial
 
-theorem po_afterExec {σ} (v : Variant) (env : Env) (ov : Overlay σ) (tx : Tx) (out : ExecOutcome σ) (ob av : UInt64) :
-    PanicOnly (PanicCond v env tx) (afterExec v env ov tx out ob av) := by
+/-- the supply invariant (C06_conserve) on the balances the fee transfer touches, before and after the execution -/
+def Bounded {σ} (env : Env) (ov : Overlay σ) (tx : Tx) (out : ExecOutcome σ) : Prop :=
+  (ov.bal tx.payer ≤ totalSupplyV2 ∧ ov.bal env.gov ≤ totalSupplyV2) ∧
+  (out.st.bal tx.payer ≤ totalSupplyV2 ∧ out.st.bal env.gov ≤ totalSupplyV2)
+
+theorem PanicOnly.mono {σ} {c c' : Prop} (h : c → c') : ∀ r : Res σ, PanicOnly c r → PanicOnly c' r
+  | .panic, hp => h hp
+  | .blockError, _ => trivial
+  | .done _ _, _ => trivial
+
+theorem po_afterExec {σ} (env : Env) (ov : Overlay σ) (tx : Tx) (out : ExecOutcome σ) (ob av : UInt64) :
+    PanicOnly (¬ Bounded env ov tx out) (afterExec env ov tx out ob av) := by
   unfold afterExec
   split; · trivial
   split
   · split
-    · next hc => exact po_tunedInvalid _ _ _ _ _ _ hc
+    · exact PanicOnly.mono (fun h hb => h hb.1) _ (po_costInvalid _ _ _ _)
     · trivial
   · split
-    · next hc =>
-      split
-      · exact po_tunedInvalid _ _ _ _ _ _ hc
-      · exact po_chargeAndCommit _ _ _ _ _ _ _ hc
+    · split
+      · exact PanicOnly.mono (fun h hb => h hb.1) _ (po_costInvalid _ _ _ _)
+      · exact PanicOnly.mono (fun h hb => h hb.2) _ (po_chargeAndCommit _ _ _ _ _ _)
     · trivial
 
 theorem po_invoke {σ} (v : Variant) (env : Env) (ov : Overlay σ) (tx : Tx) (out : ExecOutcome σ) :
-    PanicOnly (PanicCond v env tx) (invoke v env ov tx out) := by
+    PanicOnly (¬ Bounded env ov tx out) (invoke v env ov tx out) := by
+  have hc : ∀ g, PanicOnly (¬ Bounded env ov tx out) (costInvalid env ov tx g) :=
+    fun g => PanicOnly.mono (fun h hb => h hb.1) _ (po_costInvalid _ _ _ _)
   unfold invoke
   split
   · split; · trivial
     dsimp only
-    split; · exact po_costInvalid _ _ _ _ _
-    split; · exact po_costInvalid _ _ _ _ _
-    split; · exact po_costInvalid _ _ _ _ _
-    exact po_afterExec _ _ _ _ _ _ _
-  · exact po_afterExec _ _ _ _ _ _ _
+    split; · exact hc _
+    split; · exact hc _
+    split; · exact hc _
+    split; · exact hc _
+    exact po_afterExec _ _ _ _ _ _
+  · exact po_afterExec _ _ _ _ _ _
 
-/-- what the transaction pool enforces on admission (`SafeMul(GasLimit, GasPrice)` does not overflow,
-`GasLimit >= MinGasLimit = 20000`) excludes the wrap of `GasPrice * MIN_TRANSACTION_GAS` to zero -/
-theorem gasRound_ne_zero (gp gl : UInt64) (hp : gp ≠ 0) (hl : minTxGas ≤ gl) (hm : gl.toNat * gp.toNat < 2 ^ 64) :
-    gp * minTxGas ≠ 0 := by
-  intro h
-  have h1 : (gp * minTxGas).toNat = 0 := by rw [h]; rfl
-  rw [UInt64.toNat_mul] at h1
-  have hl' : (20000 : Nat) ≤ gl.toNat := by
-    have := UInt64.le_iff_toNat_le.mp hl; simpa [minTxGas] using this
-  have hp' : 0 < gp.toNat := by
-    rcases Nat.eq_zero_or_pos gp.toNat with h0 | h0
-    · exact absurd (UInt64.toNat_inj.mp (by simpa using h0)) hp
-    · exact h0
-  have hm20 : minTxGas.toNat = 20000 := rfl
-  rw [hm20] at h1
-  have hlt : gp.toNat * 20000 < 2 ^ 64 := by
-    calc gp.toNat * 20000 ≤ gp.toNat * gl.toNat := Nat.mul_le_mul_left _ hl'
-      _ = gl.toNat * gp.toNat := Nat.mul_comm _ _
-      _ < 2 ^ 64 := hm
-  rw [Nat.mod_eq_of_lt hlt] at h1
-  omega
+/-! ### the gas the VM is started with -/
+
+theorem availOf_le (tx : Tx) (ob : UInt64) : availOf tx ob ≤ tx.gasLimit := by
+  unfold availOf; dsimp only
+  split
+  · next h => exact UInt64.le_of_lt h
+  · exact UInt64.le_refl _
+
+theorem gasGiven_sound_le {σ} (env : Env) (ov : Overlay σ) (tx : Tx) (g : UInt64)
+    (h : gasGiven .sound env ov tx = some g) : g ≤ tx.gasLimit := by
+  unfold gasGiven at h
+  split at h
+  · split at h; · cases h
+    dsimp only at h
+    split at h; · cases h
+    split at h; · cases h
+    split at h; · cases h
+    split at h; · cases h
+    next hu =>
+    injection h with h
+    subst h
+    have hge : calcGasByCodeLen tx.codeLen env.uintCodeGas ≤ availOf tx (balUnits (ov.bal tx.payer)) := by
+      simp only [underflows, decide_eq_true_eq] at hu
+      exact UInt64.not_lt.mp hu
+    have hav := availOf_le tx (balUnits (ov.bal tx.payer))
+    rw [UInt64.le_iff_toNat_le] at hge hav ⊢
+    rw [UInt64.toNat_sub_of_le _ _ hge]
+    omega
+  · injection h with h; subst h; exact UInt64.le_refl _
+
 end OntVerif.Proofs.InvokeFee
